@@ -24,6 +24,7 @@ From Coq Require Import String.
 From V Require Import Prelude.Base Prelude.PyInt Prelude.PyStr.
 From V Require Import Model.Types Model.Crypto Model.Sym Model.KeyId Model.Gkdi Model.Kek Model.SecDesc Model.Blob Model.Interval Model.Client.
 From V Require Import Spec.GkdiSpec Spec.KekSpec.
+From V Require Import gen.K_e2e.
 From V Require Import Proofs.BlobPkcs7 Proofs.BlobMain Proofs.C01Lib Proofs.C01.
 
 Theorem C01_roundtrip_offline : forall (c : Crypto) (h : hash) (rk : root_key) (rkid : bytes) (s : sid) (sid : pystr) (time_ns l0 l1 l2 : Z),
@@ -56,6 +57,12 @@ Theorem C01_protect_succeeds : forall (c : Crypto) (h : hash) (rk : root_key) (r
   exists blob cache1, protect_offline c cache r1 r2 r3 data sid (Some rkid) time_ns = (Ok blob, cache1).
 Proof. exact protect_succeeds. Qed.
 Print Assumptions C01_protect_succeeds.
+
+(* the data flow of _encrypt_blob in the current source (regenerated kernel) is the one Model/Client.v encrypt_blob has:
+   CEK -> content_encrypt and cek_encrypt only, nonce -> GCM parameters only, (kek, key_identifier) = key.new_kek() *)
+Theorem C01_blob_flow : k_encrypt_blob_flow = true.
+Proof. exact blob_flow. Qed.
+Print Assumptions C01_blob_flow.
 
 (* a cache with the root key loaded and no entry for the triple *)
 Theorem C01_cache_ok_fresh : forall c h rk rkid sd l0 cache, cc_find_root (cc_roots cache) rkid = Some rk ->
